@@ -9,6 +9,8 @@ mod engine;
 mod gen;
 mod props;
 mod refmodel;
+mod refmodel2;
+mod lockstep;
 mod spec;
 mod footprint;
 mod exec;
